@@ -661,7 +661,7 @@ func runC10x(r *emit.Rand) {
 	}
 	// an exchange the proxy has to refuse (Host that cannot be turned into a target) whose BODY looks like a request,
 	// followed by a real exchange: the body is payload of the first exchange and of nothing else
-	for i, badHost := range []string{"host:abc", "[::1", "exa mple.test", "h%zz"} {
+	for i, badHost := range []string{"host:abc", "[::1", "exa mple.test", "h%zz", "<no Host field at all>", ""} {
 		for _, chunked := range []bool{false, true} {
 			c, _, err := env.DialTunnel(env.Origin.Addr, "127.0.0.1", 8*time.Second)
 			if err != nil {
@@ -671,6 +671,9 @@ func runC10x(r *emit.Rand) {
 			real := fmt.Sprintf("/real-%d-%v/a1", i, chunked)
 			inner := "GET " + smug + " HTTP/1.1\r\nHost: " + env.Origin.Addr + "\r\n\r\n"
 			first := "POST /upload HTTP/1.1\r\nHost: " + badHost + "\r\n"
+			if strings.HasPrefix(badHost, "<no Host") {
+				first = "POST /upload HTTP/1.1\r\n"
+			}
 			if chunked {
 				first += "Transfer-Encoding: chunked\r\n\r\n" + fmt.Sprintf("%x\r\n%s\r\n0\r\n\r\n", len(inner), inner)
 			} else {
@@ -1052,6 +1055,47 @@ func budgetZero() {
 	}
 }
 
+// largerThanCache: an object larger than the whole cache (max_cache_size 1K, 3000 bytes), sized or chunked, both
+// backends: it cannot be kept, and the client still receives every byte of it, every time.
+func largerThanCache() {
+	for _, backend := range []string{"memory", "file"} {
+		dir := filepath.Join(*flagOut, "envltc-"+backend)
+		env, err := e2elib.Start(e2elib.Options{Backend: backend, Dir: dir, Tune: func(cfg *config.Config) {
+			cfg.Cache.MaxCacheSize.Overwrite(bytesize.ByteSize(1024))
+		}})
+		if err != nil {
+			panic(err)
+		}
+		for _, chunked := range []bool{false, true} {
+			want := []byte("T=" + fmt.Sprintf("/ltc-%v", chunked) + ";" + strings.Repeat("0123456789", 299))
+			env.Origin.SetHandler(func(req e2elib.OriginRequest, k int) e2elib.Answer {
+				a := e2elib.NewAnswer(200, want, "Cache-Control: max-age=600", "ETag: \"ltc\"")
+				if chunked {
+					a.Chunked = true
+					a.Pieces, a.PieceDelay = 6, 5*time.Millisecond
+				}
+				return a
+			})
+			for i := 0; i < 3; i++ {
+				resp, err := env.DoPlain(env.PlainRequest("GET", fmt.Sprintf("/ltc-%v", chunked), nil, nil), "GET", 6*time.Second)
+				total++
+				dist["larger-than-cache/"+backend]++
+				det := map[string]any{"max_cache_size": 1024, "object_bytes": len(want), "origin_chunked": chunked, "backend": backend, "request_no": i + 1}
+				if err != nil {
+					fail("larger-than-cache", det, "a request the origin answers fine got no response: "+err.Error())
+					break
+				}
+				if resp.Status != 200 || resp.BodyErr != "" || !bytes.Equal(resp.Body, want) {
+					det["status"], det["received_bytes"], det["body_error"], det["x_cache"] = resp.Status, len(resp.Body), resp.BodyErr, resp.Header.Get("X-Cache")
+					fail("larger-than-cache", det, "an object larger than the whole cache was not delivered completely")
+				}
+			}
+		}
+		env.Close()
+		os.RemoveAll(dir)
+	}
+}
+
 // otherFilesystem: the file cache's directory lives on another filesystem than the system temp directory (a data disk
 // next to a tmpfs /tmp): N simultaneous identical GETs still cause one origin fetch and the answer is stored.
 func otherFilesystem() {
@@ -1194,6 +1238,7 @@ func runC09x(r *emit.Rand) {
 	hangupC09x()
 	cacheDirGone()
 	budgetZero()
+	largerThanCache()
 	for _, shards := range []int{1, 2, 32} {
 		dir := filepath.Join(*flagOut, fmt.Sprintf("envx%d", shards))
 		env, err := e2elib.Start(e2elib.Options{Backend: "file", Dir: dir, Shards: shards, Tune: func(cfg *config.Config) {
